@@ -26,6 +26,7 @@ PLANS = {
     "C08": plan(shards(20, 240)),
     "C09": plan(shards(20, 240)),
     "C10": plan(shards(40, 400, mode="script", n=12), shards(25, 300, mode="faults", n=3), shards(15, 120, mode="shutdown-race", n=1)),
+    "C11": plan(shards(25, 300, mode="two", n=12), shards(25, 300, mode="three", n=4)),
     "C12": plan(shards(20, 240)),
     "C13": plan(shards(20, 240)),
     "C06": plan(shards(25, 300, mode="images", n=14), shards(20, 200, mode="kill", n=2)),
